@@ -641,6 +641,10 @@ def derived_ops(ast):
             stmts = children(body_of(n))
             if len(stmts) == 1 and stmts[0].get("kind") == "ReturnStmt" and children(stmts[0]):
                 body = cexpr(ast, children(stmts[0])[0], params)
+            elif _if_return(ast, stmts, params) is not None:
+                body = _if_return(ast, stmts, params)          # if (c) return a; return b;   read as   c ? a : b
+            elif _named_result(ast, stmts, params) is not None:
+                body = _named_result(ast, stmts, params)       # const T& x = E; return x;
             elif len(stmts) == 2 and stmts[1].get("kind") == "ReturnStmt" and n.get("name") in ("operator++", "operator--") and not params:
                 # ++index; return *this;   (pre-increment / pre-decrement)
                 inner = cexpr(ast, stmts[0], params)
@@ -743,6 +747,35 @@ def compare_calls(ast):
         arg = first_param("(" + orig_type(ch[1]) + ")")
         cnt[(arg, callee)] = cnt.get((arg, callee), 0) + 1
     return [{"operand": a, "overload": c, "calls": k} for (a, c), k in sorted(cnt.items())]
+
+
+def _named_result(ast, stmts, params):
+    """`const T& x = E; return x;` (a local that only names the result) read as E; None for other shapes"""
+    if len(stmts) == 2 and stmts[0].get("kind") == "DeclStmt" and stmts[1].get("kind") == "ReturnStmt":
+        ds = children(stmts[0])
+        if len(ds) == 1 and ds[0].get("kind") == "VarDecl" and children(ds[0]):
+            ret = children(stmts[1])
+            r = ret[0] if ret else None
+            while r is not None and r.get("kind") in PASS_THROUGH and children(r):
+                r = children(r)[-1]
+            if r is not None and r.get("kind") == "DeclRefExpr" and r.get("referencedDecl", {}).get("id") == ds[0].get("id"):
+                return cexpr(ast, children(ds[0])[-1], params)
+    return None
+
+
+def _if_return(ast, stmts, params):
+    """`if (c) return a; return b;` and `if (c) return a; else return b;` as the conditional expression c ? a : b; None for other shapes"""
+    if len(stmts) == 2 and stmts[0].get("kind") == "IfStmt" and len(children(stmts[0])) == 2:
+        c, a = children(stmts[0])
+        ra, rb = _returned(ast, a, params), _returned(ast, stmts[1], params)
+        if ra is not None and rb is not None:
+            return ["CCond", cexpr(ast, c, params), ra, rb]
+    if len(stmts) == 1 and stmts[0].get("kind") == "IfStmt" and len(children(stmts[0])) == 3:
+        c, a, b = children(stmts[0])
+        ra, rb = _returned(ast, a, params), _returned(ast, b, params)
+        if ra is not None and rb is not None:
+            return ["CCond", cexpr(ast, c, params), ra, rb]
+    return None
 
 
 def impl_inline_ops(ast, wanted=(("Elementary_substitution", "operator[]"),)):
@@ -966,6 +999,8 @@ def type_bodies(ast):
         stmts = children(body_of(n))
         if len(stmts) == 1 and stmts[0].get("kind") == "ReturnStmt" and children(stmts[0]):
             body = cexpr(ast, children(stmts[0])[0], [])
+        elif _named_result(ast, stmts, []) is not None:
+            body = _named_result(ast, stmts, [])
         else:
             body = ["CUnknown", "statements:%d" % len(stmts)]
         txt = json.dumps(body)
